@@ -30,6 +30,18 @@ def lines(out, tag):
     return res
 
 
+def attach_obs(r, name):
+    """EDGE/INIT lines carry states only; the observation of a state comes from its STATE line."""
+    obs = {vlib.key(x["s"]): x["o"] for x in lines(r.out, "STATE")}
+    for e in r.edges:
+        e["o"] = obs.get(vlib.key(e["t"]))
+        if e["o"] is None:
+            raise vlib.Broken("%s: no STATE line for the target of an edge" % name)
+    for i in r.inits:
+        i["o"] = obs.get(vlib.key(i["t"]))
+    return obs
+
+
 def strs_upto(chars, n):
     out = [""]
     level = [""]
@@ -67,19 +79,22 @@ def plan(tier, k):
 
     # suffix: every set of up to n suffix rules over {a,b,.} up to 3 characters (empty labels, leading/trailing/double
     # dots, rules that are suffixes or extensions of one another), reached by every insertion order; one CASE per set
-    add("dom_suffix", "MCDomainSet", 10, dict(dom, SuffixRules="StrsUpTo(%s, 3)" % CHARS, MaxRules=4 if big else 3, CASE="CaseOut"),
+    # (quick: the 15 strings over {a,.} and 8 with b; thorough: all 40 strings, 4 rules)
+    small = 'StrsUpTo({"a", "."}, 3) \\cup {"b", "ab", "ba", "a.b", "b.a", ".b", "b.", "b.b"}'
+    add("dom_suffix", "MCDomainSet", 12 if big else 8,
+        dict(dom, SuffixRules="StrsUpTo(%s, 3)" % CHARS if big else small, MaxRules=4 if big else 3, CASE="CaseOut"),
         probes=strs_upto("ab.", 4))
     # mixed: all four kinds together, Clear, gob and text round trips as actions; replayed step by step
     add("dom_mixed", "MCDomainSet", 2,
         dict(dom, DomainRules=S(["a", "a.b", "b."]) if big else S(["a", "a.b"]), SuffixRules=S(["b", "a.b", ""]),
              KeywordRules=S(["a", ".", "b.a"]) if big else S(["a", "."]), RegexpRules=S(["^a", "b$", "a.b", "^\\.$"]) if big else S(["^a", "b$", "a.b"]),
-             Probes="StrsUpTo(%s, 3)" % CHARS, MaxRules=4, MaxClear=1, Conv=S(["gob", "text"]), PROPS="InsertMonotone",
-             EMIT="ACTION_CONSTRAINT Emit", CASE="CaseOut"),
+             Probes="StrsUpTo(%s, 3)" % CHARS, MaxRules=4 if big else 3, MaxClear=1, Conv=S(["gob", "text"]), PROPS="InsertMonotone",
+             EMIT="ACTION_CONSTRAINT Emit", CASE="StateOut"),
         probes=strs_upto("ab.", 3), edges=True)
     # conv: suffix rules up to 2 characters with the conversions enabled in every state
     add("dom_conv", "MCDomainSet", 2,
         dict(dom, SuffixRules="StrsUpTo(%s, 2)" % CHARS, DomainRules=S(["a", "b.a"]), MaxRules=3, Conv=S(["gob", "text"]),
-             Probes="StrsUpTo(%s, 3)" % CHARS, EMIT="ACTION_CONSTRAINT Emit"),
+             Probes="StrsUpTo(%s, 3)" % CHARS, EMIT="ACTION_CONSTRAINT Emit", CASE="StateOut"),
         probes=strs_upto("ab.", 3), edges=True)
     # text: documents of up to 3 lines (rules of every kind, comments, blank lines, a lone CR, malformed lines, good and
     # bad capacity hints) ended by LF or CRLF, the last line possibly unterminated: parser == declarative reading
@@ -88,21 +103,26 @@ def plan(tier, k):
         alpha += ["\\r", "keyword:", "keywordx:a", "#suffix:a"]
     add("dom_text", "MCDomainSet", 1,
         dict(dom, DomainRules=S(["a"]), SuffixRules=S(["b"]), MaxRules=2, Sizes=S([0, 1]), Probes="StrsUpTo(%s, 3)" % CHARS,
-             Texts="DocsU(%s \\cup {GoodHint, BadHint}, {LF, CR \\o LF}, 3)" % S(alpha).replace('\\\\r', '\\r'),
-             EMIT="ACTION_CONSTRAINT Emit"),
+             Texts=("DocsU(%s \\cup {GoodHint, BadHint}, {LF, CR \\o LF}, 3)" if big else
+                    "LET A == %s  E == {LF, CR \\o LF} IN DocsU(A \\cup {GoodHint, BadHint}, E, 2) \\cup "
+                    "{h \\o e \\o d : h \\in {GoodHint, \"#c\"}, e \\in E, d \\in DocsU({\"domain:a\", \"suffix:b\", \"#c\", \"\", \"x\"}, E, 2)}") % S(alpha).replace('\\\\r', '\\r'),
+             EMIT="ACTION_CONSTRAINT Emit", CASE="StateOut"),
         probes=strs_upto("ab.", 3), edges=True)
 
     # port sets, small words: every subset of 1..11 reached by Add / AddRange / Parse; the transcribed scans, the
     # binary search and the parser against the set semantics
     strs = 'Items({1, 3, 4, 5, 8, 11}) \\cup {"", ",", "3,", ",3", "0", "12", "5-5", "7-3", "0-3", "3-12", "1-2-3", "-", "x", ' \
            '"3,,4", "03,4-05", "4,0,7", "1-3,2-6,8", "9-11,x"}'
-    add("port_small", "MCPortSet", 4,
-        dict(BlockBits=4, NBlocks=3, MaxRanges=2, AddPorts="1..11", AddRanges="{x \\in (1..11) \\X (1..11) : x[1] < x[2]}",
-             Strings=strs, CaseStrings="{}", MaxOps=0, Concrete="TRUE", EMIT="", INVS=PORT_INVS, PROPS="ParseIsMeaning Monotone"))
+    top = 11 if big else 8
+    if not big:
+        strs = strs.replace("11", "8").replace('"12"', '"9"').replace("3-12", "3-9")
+    add("port_small", "MCPortSet", 6 if big else 3,
+        dict(BlockBits=4 if big else 3, NBlocks=3, MaxRanges=2, AddPorts="1..%d" % top,
+             AddRanges="{x \\in (1..%d) \\X (1..%d) : x[1] < x[2]}" % (top, top), Strings=strs, CaseStrings="{}", MaxOps=0, Concrete="TRUE", EMIT="", INVS=PORT_INVS, PROPS="ParseIsMeaning Monotone"))
     # port sets, the code's word size: range strings over the block-boundary alphabet, expected runs from intervals
-    edge = [1, 2, B - 1, B, B + 1, 2 * B, B * (NB - 1) - 1, B * (NB - 1), B * NB - 2, B * NB - 1]
+    edge = [1, B - 1, B, B + 1, B * (NB - 1), B * NB - 2, B * NB - 1]
     if big:
-        edge += [2 * B - 1, 2 * B + 1, B * (NB - 1) + 1]
+        edge += [2, 2 * B - 1, 2 * B, 2 * B + 1, B * (NB - 1) - 1, B * (NB - 1) + 1]
     stripes = ["Stripe(1, 2, 1, %d)" % (maxr + 1), "Stripe(1, 2, 1, %d)" % maxr, "Stripe(%d, 3, 2, %d)" % (B - 4, maxr),
                "Stripe(%d, %d, 2, %d)" % (B - 1, B, maxr + 24), "Stripe(%d, %d, %d, %d)" % (B, 2 * B, B, maxr + 1),
                "Stripe(%d, 2, 1, %d)" % (B * NB - 1 - 2 * (maxr + 3), maxr + 4)]
@@ -118,14 +138,15 @@ def plan(tier, k):
              AddRanges="{<<1, 2>>, <<1, %d>>, <<%d, %d>>, <<%d, %d>>, <<%d, %d>>, <<%d, %d>>, <<2, %d>>, <<100, 300>>}"
                        % (B, B - 1, B + 1, B, 2 * B - 1, B + 1, B * NB - 1, B * (NB - 1), B * NB - 1, B * NB - 2),
              Strings=S(["5,7,9", "%d-%d,%d" % (B - 2, B + 2, 2 * B + 1), str(B * NB - 1), "1-%d" % (B * NB - 1), "70000", "3,0"]),
-             CaseStrings="{}", MaxOps=3, Concrete="FALSE", EMIT="ACTION_CONSTRAINT Emit", INVS="TypeOK", PROPS="ParseIsMeaning"),
+             CaseStrings="{}", MaxOps=3, Concrete="FALSE", EMIT="ACTION_CONSTRAINT Emit", INVS="TypeOK StateOut", PROPS="ParseIsMeaning Monotone"),
         edges=True)
 
     # prefix sets: every set of up to 3 lines over 3-bit addresses (host bits set, nested, sibling, duplicate after
     # masking, /0 and full length), two families
     add("prefix", "MCPrefixSet", 2,
         dict(W=3, Fams=S(["4", "6"]), MaxPrefixes=3, EMIT="", CASE="CaseOut",
-             Lines='[fam : {"4"}, a : 0..7, len : 0..3] \\cup [fam : {"6"}, a : %s, len : %s]' % (("0..7", "0..3") if big else ("{0, 5, 7}", "{0, 2, 3}"))))
+             Lines=('[fam : {"4"}, a : 0..7, len : 0..3] \\cup [fam : {"6"}, a : 0..7, len : 0..3]' if big else
+                    '[fam : {"4"}, a : {0, 2, 5, 7}, len : 0..3] \\cup [fam : {"6"}, a : {2, 5}, len : {0, 2, 3}]')))
     return runs, sizes
 
 
@@ -224,6 +245,10 @@ def run(tier, seed, replay):
             table = lines(r.out, "TABLE")
             table = table[0] if table else []
             cases = lines(r.out, "CASE")
+            if spec.get("edges"):
+                attach_obs(r, name)
+                if name == "dom_mixed":     # every distinct state also as a case for the size / round-trip pipeline
+                    cases = [{"ref": x["s"][1], "keys": x["o"]["keys"], "m": x["o"]["m"]} for x in lines(r.out, "STATE")]
             info["cases"] = len(cases)
             if cases:
                 for c in cases:
@@ -251,6 +276,7 @@ def run(tier, seed, replay):
                     distinct.add(hashlib.sha1(json.dumps(c["runs"], sort_keys=True).encode()).hexdigest())
             agg = drive(name, "TestPortCases", chunk_cases(cases, 16, routeEvery=1 if big else 4), 2400 if big else 600)
         elif name == "port_graph":
+            attach_obs(r, name)
             g, behs, left = graph_paths(r, 4, None)
             info.update(edges=len(g.edges), paths=len(behs), uncovered_edges=left)
             agg = drive(name, "TestPortReplay", [{"seed": seed, "behaviours": c} for c in common.chunks(behs, 8)], 1200 if big else 400)
